@@ -1,6 +1,6 @@
 #[cfg(test)]
 mod verif_demo_xlswb_3 {
-    use super::verif_demo_xlswb_1::{bof, boundsheet, open, rec};
+    use super::verif_demo_xlswb_2::{bof, boundsheet, open, rec};
     // BoundSheet8.lbPlyPos beyond the end of the Workbook stream: `&stream[pos..]` panics
     #[test]
     #[should_panic(expected = "out of range")]
